@@ -793,3 +793,21 @@ func uniqueKeys(v *ref.Value) bool {
 	}
 	return true
 }
+
+// ExtendBuiltin adds an extension of a built-in (prelude) type to the tree: legal for the
+// loader, and the only way user text touches definitions that are shared between loads.
+func ExtendBuiltin(t *rapid.T, st *SchemaTree) {
+	var ext *ref.TypeDef
+	switch rapid.IntRange(0, 3).Draw(t, "builtinext") {
+	case 0:
+		ext = &ref.TypeDef{Kind: "OBJECT", Name: rapid.SampledFrom([]string{"__Field", "__Type", "__Schema"}).Draw(t, "bt"), Fields: []*ref.FieldDef{{Name: "extra", Type: &ref.Type{Name: "Int"}}}}
+	case 1:
+		ext = &ref.TypeDef{Kind: "SCALAR", Name: rapid.SampledFrom([]string{"String", "ID", "Float"}).Draw(t, "bs"), Directives: []*ref.Directive{{Name: "specifiedBy", Args: []*ref.Arg{{Name: "url", Value: &ref.Value{Kind: "String", Raw: "https://example.com/s"}}}}}}
+	case 2:
+		ext = &ref.TypeDef{Kind: "ENUM", Name: "__TypeKind", EnumValues: []*ref.EnumVal{{Name: "EXTRA"}}}
+	default:
+		ext = &ref.TypeDef{Kind: "OBJECT", Name: "__EnumValue", Fields: []*ref.FieldDef{{Name: "extra2", Type: &ref.Type{Name: "String"}, Directives: []*ref.Directive{{Name: "deprecated"}}}}}
+	}
+	st.Doc.Exts = append(st.Doc.Exts, ext)
+	st.Order = append(st.Order, TopItem{"ext", len(st.Doc.Exts) - 1})
+}
